@@ -26,7 +26,7 @@ ASSUMPTIONS = [
     "grammar: int | list[int] | slice(start, stop, step>=1); booleans, None, Ellipsis and negative steps are outside the stated domain",
     "for infinite dimensions a negative integer / list entry / slice bound or an open-ended slice must raise IndexError (property text)",
 ]
-BUDGET = {"quick": dict(cases=12000, seconds=60), "thorough": dict(cases=160000, seconds=420)}
+BUDGET = {"quick": dict(cases=12000, seconds=300), "thorough": dict(cases=160000, seconds=420)}
 CASE_TIMEOUT = 60
 MONITORS = {"product": False, "solvers": False}
 MONITOR_VERDICTS = ("pending",)
